@@ -185,7 +185,94 @@ def _apex(ctx, cfg, prog, mod):
     ctx.floor('fan_fill_cavity call sites', 1, n, cfg)
 
 
+# ------------------------------------------------------------------------------------------ STARSCAN
+# Tds::remove_vertex deletes the star of the vertex and fills nothing.  The triangulation layer may call it
+# (i) after the fan fill, or (ii) when the star *computed from the cells stored in the Tds* is empty.  A decision
+# taken from the caller's copy of the vertex (whose `incident_cell` is whatever the caller's copy holds) is not (ii).
+SCAN_CALLS = (T + 'cells', 'core::algorithms::locate::extract_cavity_boundary', T + 'find_cells_containing_vertex_by_key',
+              T + 'cell_keys', T + 'number_of_cells')
+
+
+def _reaches(prog, name, targets, memo, depth=3):
+    if name in targets:
+        return True
+    if name in memo:
+        return memo[name]
+    memo[name] = False
+    b = prog.bodies.get(name)
+    if b is None or depth == 0:
+        return False
+    r = any(_reaches(prog, (t.resolved or t.callee), targets, memo, depth - 1) for _, t in b.calls())
+    if not r:
+        r = any(_reaches(prog, c, targets, memo, depth - 1) for c in prog.children.get(name, []))
+    memo[name] = r
+    return r
+
+
+def _reaches_fan(prog, name, memo, depth=3):
+    return _reaches(prog, name, (FAN,), memo, depth)
+
+
+def _starscan(ctx, cfg, prog, mod):
+    import valueflow
+    fam = [TRI_RM] + [c for c in prog.children.get(TRI_RM, []) if c in prog.bodies]
+    direct = {(t.resolved or t.callee) for q in fam for _, t in prog.bodies[q].calls()}
+    fam += [q for q in sorted(direct) if q in prog.bodies and q.startswith(TR) and q != TRI_RM and
+            any((t.resolved or t.callee) == TDS_RM for _, t in prog.bodies[q].calls())]
+    memo = {}
+    scan_memo = {}
+    n = 0
+    for q in sorted(set(fam)):
+        b = prog.bodies[q]
+        calls = [(bb, t) for bb, t in b.calls() if (t.resolved or t.callee) == TDS_RM]
+        if not calls:
+            continue
+        al = mod.aliases(q)
+        fan_blocks = {bb for bb, t in b.calls() if _reaches_fan(prog, (t.resolved or t.callee), memo)}
+        gates = set()
+        details = []
+        for blk in b.blocks:
+            t = blk.term
+            if blk.cleanup or t.k != 'switch' or t.discr.place is None or not t.discr.place.is_local():
+                continue
+            srcs = valueflow.sources(b, al, t.discr.place.local)
+            scans = sorted({(l[1].resolved or l[1].callee) for l in srcs if l[0] == 'call' and
+                            (l[1].resolved or l[1].callee) != LOOKUP and
+                            _reaches(prog, (l[1].resolved or l[1].callee), SCAN_CALLS, scan_memo, 2)})
+            if not scans:
+                continue
+            empt = [l for l in srcs if l[0] == 'call' and (l[1].resolved or l[1].callee or '').endswith('::is_empty')]
+            if empt:
+                edges = set()
+                for l in empt:
+                    edges |= flow.call_flow(b, l[2]).ok_edges
+                edges = {e for e in edges if e[0] == blk.idx} or {(blk.idx, d) for d in b.succs(blk.idx)}
+            else:
+                # a comparison (`len() == 0`, `count < 1`): polarity is not decided; a Result / Option discriminant
+                # (`?` on the scan itself) is not an emptiness decision
+                d = b.single_def(t.discr.place.local)
+                if d is None or d[1] == 'term' or d[2].rv.k != 'bin':
+                    continue
+                edges = {(blk.idx, d_) for d_ in b.succs(blk.idx)}
+            gates |= edges
+            details.append('line %d on %s' % (t.line, '/'.join(x.rsplit('::', 1)[-1] for x in scans)))
+        reach = flow.reach_edges(b, [0], avoid_edges=gates, avoid_blocks=fan_blocks)
+        for bb, t in calls:
+            n += 1
+            ok = bb not in reach
+            where = 'behind the fan fill' if ok and any(bb in flow.reach_edges(b, [f]) for f in fan_blocks) else \
+                'behind an emptiness decision on the star / cavity boundary computed from the Tds (%s)' % '; '.join(details[:3])
+            ctx.ob('STARSCAN', '%s|line-order-%d' % (q, [x for x, _ in calls].index(bb)), cfg, ok,
+                   ('Tds::remove_vertex (deletes the star, fills nothing) is reached only ' + where) if ok else
+                   'Tds::remove_vertex (deletes the star, fills nothing) can be reached without the fan fill and without a decision '
+                   'derived from the cells stored in the Tds (%s): a caller-supplied copy of the vertex decides whether the '
+                   'star is refilled' % (', '.join(details) or 'no scan-derived decision in this body'),
+                   site='%s:%d' % (b.file, t.line))
+    ctx.floor('Tds::remove_vertex call sites in the triangulation-layer removal', 1, n, cfg)
+
+
 def run(ctx):
+    ctx.rule('STARSCAN', 'the raw Tds removal (no refill) is reached only behind the fan fill or an emptiness decision on the star computed from the Tds')
     ctx.rule('TXN', 'remove_vertex (both layers) and the inverse k=1 flip are clean on failure')
     ctx.rule('UNKNOWN', 'unknown vertex => no mutation reachable and Ok(0)')
     ctx.rule('POSTFILL', 'fan retriangulation Ok lies behind the local facet / orientation / incidence checks')
@@ -291,6 +378,7 @@ def run(ctx):
         # ---- APEX: the fan apex is chosen so that it cannot be the removed vertex itself
         _apex(ctx, cfg, prog, mod)
         _fancover(ctx, cfg, prog, mod)
+        _starscan(ctx, cfg, prog, mod)
         # ---- REPAIR
         b = prog.bodies[DT_RM]
         te = gate.predicate_edges(b, {SHOULD}, True)
